@@ -85,12 +85,18 @@ enum Entry<C> {
 pub struct VersionedOperation<V> {
     op: Operation<V>,
     epoch: Epoch,
+
+    /// Issue order of the operation within its log; breaks ties between
+    /// operations staged by the same write batch.
+    seq: u64,
 }
 
 impl<V> Eq for VersionedOperation<V> {}
 
 impl<V> PartialEq for VersionedOperation<V> {
-    fn eq(&self, other: &Self) -> bool { self.epoch.eq(&other.epoch) }
+    fn eq(&self, other: &Self) -> bool {
+        self.epoch.eq(&other.epoch) && self.seq.eq(&other.seq)
+    }
 }
 
 impl<V> PartialOrd for VersionedOperation<V> {
@@ -101,7 +107,9 @@ impl<V> PartialOrd for VersionedOperation<V> {
 
 impl<V> Ord for VersionedOperation<V> {
     fn cmp(&self, other: &Self) -> std::cmp::Ordering {
-        self.epoch.cmp(&other.epoch)
+        // Reversed: the heap yields the oldest staged operation first, which
+        // is what `FlushUpTo` needs to pop.
+        (other.epoch, other.seq).cmp(&(self.epoch, self.seq))
     }
 }
 
@@ -120,6 +128,7 @@ enum ConcurrentLogMessage<V> {
 struct ConcurrentLog<V> {
     log: RwLock<BinaryHeap<VersionedOperation<V>>>,
     deferred_messages: SegQueue<ConcurrentLogMessage<V>>,
+    next_seq: std::sync::atomic::AtomicU64,
 }
 
 impl<V: Eq + Hash + Clone> ConcurrentLog<V> {
@@ -127,6 +136,7 @@ impl<V: Eq + Hash + Clone> ConcurrentLog<V> {
         Self {
             log: RwLock::new(BinaryHeap::new()),
             deferred_messages: SegQueue::new(),
+            next_seq: std::sync::atomic::AtomicU64::new(0),
         }
     }
 
@@ -180,17 +190,21 @@ impl<V: Eq + Hash + Clone> ConcurrentLog<V> {
         let mut added = HashSet::with_hasher(FxBuildHasher::default());
         let mut removed = HashSet::with_hasher(FxBuildHasher::default());
 
-        for op in log.iter() {
+        // Replay the staged operations in the order they were issued; for
+        // every element the last operation decides, whatever the backing
+        // store currently holds for it.
+        let mut ops = log.iter().collect::<Vec<_>>();
+        ops.sort_unstable_by_key(|op| (op.epoch, op.seq));
+
+        for op in ops {
             match &op.op {
                 Operation::Insert(v) => {
-                    if removed.remove(v).not() {
-                        added.insert(v.clone());
-                    }
+                    removed.remove(v);
+                    added.insert(v.clone());
                 }
                 Operation::Remove(v) => {
-                    if added.remove(v).not() {
-                        removed.insert(v.clone());
-                    }
+                    added.remove(v);
+                    removed.insert(v.clone());
                 }
             }
         }
@@ -536,8 +550,10 @@ impl<
 
         // apply the operation to the log
         {
+            let seq = log.next_seq.fetch_add(1, Ordering::SeqCst);
+
             log.apply_message(ConcurrentLogMessage::AppendOperation(
-                VersionedOperation { op: op.clone(), epoch },
+                VersionedOperation { op: op.clone(), epoch, seq },
             ));
         }
 
